@@ -38,14 +38,14 @@ type Op struct {
 }
 
 func (o Op) String() string {
-	if o.Kind == "encode" {
+	if strings.HasPrefix(o.Kind, "encode") {
 		return fmt.Sprintf("%s(%d,be=%v)", o.Kind, o.Idx, o.BE)
 	}
 	return fmt.Sprintf("%s(%d)", o.Kind, o.Idx)
 }
 
 // OpKinds lists the call kinds.
-var OpKinds = []string{"decode", "decodeopts", "chained", "integrity", "headerfileid", "encode"}
+var OpKinds = []string{"decode", "decodeopts", "chained", "integrity", "headerfileid", "encode", "encodebad", "encodefw"}
 
 func skipK1(msg, field string) bool {
 	return hx.Open("K1") && msg == "RecordMsg" && field == "Distance"
@@ -113,8 +113,52 @@ func Run(p *Pool, op Op, files map[int]*fit.File) (res string) {
 		}
 		err := fit.Encode(&buf, f, ord)
 		return fmt.Sprintf("err=%s bytes=%s hdr=%v crc=%d", errText(err), hex.EncodeToString(buf.Bytes()), f.Header, f.CRC)
+	case "encodebad":
+		// an Encode call that fails part-way: a string that is not UTF-8
+		f, err := gen.BuildFile(p.Specs[op.Idx])
+		if err != nil {
+			return "HARNESS build: " + err.Error()
+		}
+		f.FileId.ProductName = "\xff\xfeab"
+		var buf bytes.Buffer
+		ord := binary.ByteOrder(binary.LittleEndian)
+		if op.BE {
+			ord = binary.BigEndian
+		}
+		err = fit.Encode(&buf, f, ord)
+		return fmt.Sprintf("err=%s written=%d", errText(err), buf.Len())
+	case "encodefw":
+		// an Encode call whose writer refuses the data after a few bytes
+		f, err := gen.BuildFile(p.Specs[op.Idx])
+		if err != nil {
+			return "HARNESS build: " + err.Error()
+		}
+		w := &failingWriter{limit: 5 + 9*op.Idx}
+		ord := binary.ByteOrder(binary.LittleEndian)
+		if op.BE {
+			ord = binary.BigEndian
+		}
+		err = fit.Encode(w, f, ord)
+		return fmt.Sprintf("err=%s accepted=%s", errText(err), hex.EncodeToString(w.buf.Bytes()))
 	}
 	return "unknown op"
+}
+
+type failingWriter struct {
+	buf   bytes.Buffer
+	limit int
+}
+
+func (w *failingWriter) Write(p []byte) (int, error) {
+	if w.buf.Len()+len(p) > w.limit {
+		n := w.limit - w.buf.Len()
+		if n < 0 {
+			n = 0
+		}
+		w.buf.Write(p[:n])
+		return n, fmt.Errorf("verif: writer full")
+	}
+	return w.buf.Write(p)
 }
 
 func Hash(s string) string {
@@ -123,7 +167,7 @@ func Hash(s string) string {
 }
 
 func Valid(p *Pool, op Op) bool {
-	if op.Kind == "encode" {
+	if strings.HasPrefix(op.Kind, "encode") {
 		return op.Idx >= 0 && op.Idx < len(p.Specs)
 	}
 	return op.Idx >= 0 && op.Idx < len(p.Bytes)
